@@ -1,2 +1,140 @@
-/-! line-protocol driver for property C09 (stub) -/
-def main (_args : List String) : IO Unit := pure ()
+import MirVerif.Model.PPMacroUnit
+/-! line-protocol driver for property C09
+
+  mirdrv_c09 pp c11            specification: C11 expander, C11 `#if` evaluator
+  mirdrv_c09 pp c2m [mask]     C11 expander, model of c2mir's `#if` evaluator (mask = applied fixes,
+                               default: `appliedFixes`)
+      stdin : CASE <id> / DEFOBJ name toks.. / DEFFUN name p1,p2|- 0|1 toks.. / UNDEF name /
+              TEXT toks.. / IF toks.. / ELIF toks.. / IFDEF name / IFNDEF name / ELSE / ENDIF / END
+              a token is  w<hex of spelling>  (white space before it) or n<hex>
+      stdout: CASE <id> / T <hex> ... / ERR 0|1 / END
+  mirdrv_c09 expr              one expression (token list) per line →
+                               `<c11> <c2m applied> <minimal extra fix mask | ->`
+  mirdrv_c09 exprmask <mask>   one expression per line → result of `c2mEvalG mask`
+  results are  v<s|u><hex64> | divzero | undef | parseerr
+-/
+open MirVerif.PP
+
+def hexVal (c : Char) : Nat :=
+  if '0' ≤ c ∧ c ≤ '9' then c.toNat - '0'.toNat
+  else if 'a' ≤ c ∧ c ≤ 'f' then c.toNat - 'a'.toNat + 10
+  else 0
+
+def unhexBytes : List Char → List UInt8
+  | a :: b :: rest => UInt8.ofNat (hexVal a * 16 + hexVal b) :: unhexBytes rest
+  | _ => []
+
+def unhex (s : String) : String :=
+  if s == "-" then "" else
+  match String.fromUTF8? (ByteArray.mk (unhexBytes s.toList).toArray) with
+  | some r => r
+  | none => ""
+
+def hexDigit (n : Nat) : Char := if n < 10 then Char.ofNat (48 + n) else Char.ofNat (87 + n)
+
+def tohex (s : String) : String :=
+  String.ofList (s.toUTF8.toList.flatMap (fun b => [hexDigit (b.toNat / 16), hexDigit (b.toNat % 16)]))
+
+def parseTok (f : String) : Option Tok :=
+  match f.toList with
+  | 'w' :: h => some { sp := unhex (String.ofList h), ws := .space }
+  | 'n' :: h => some { sp := unhex (String.ofList h), ws := .none }
+  | _ => none
+
+def parseToks (fs : List String) : List Tok := fs.filterMap parseTok
+
+def parseLine (fs : List String) : Option Line :=
+  match fs with
+  | "DEFOBJ" :: name :: toks => some (.define name none false (parseToks toks))
+  | "DEFFUN" :: name :: ps :: va :: toks =>
+    some (.define name (some (if ps == "-" then [] else ps.splitOn ",")) (va == "1") (parseToks toks))
+  | ["UNDEF", name] => some (.undef name)
+  | "TEXT" :: toks => some (.text (parseToks toks))
+  | "IF" :: toks => some (.ifE (parseToks toks))
+  | "ELIF" :: toks => some (.elifE (parseToks toks))
+  | ["IFDEF", name] => some (.ifdef name)
+  | ["IFNDEF", name] => some (.ifndef name)
+  | ["ELSE"] => some .elseD
+  | ["ENDIF"] => some .endif
+  | _ => none
+
+def maskToFixes (m : Nat) : Fixes :=
+  ⟨m % 2 == 1, m / 2 % 2 == 1, m / 4 % 2 == 1, m / 8 % 2 == 1, m / 16 % 2 == 1, m / 32 % 2 == 1⟩
+
+def fixesToMask (f : Fixes) : Nat :=
+  (if f.fNot then 1 else 0) + (if f.fCmp then 2 else 0) + (if f.fShift then 4 else 0) +
+  (if f.fCond then 8 else 0) + (if f.fLit then 16 else 0) + (if f.fWchar then 32 else 0)
+
+def orFixes (a b : Fixes) : Fixes :=
+  ⟨a.fNot || b.fNot, a.fCmp || b.fCmp, a.fShift || b.fShift, a.fCond || b.fCond, a.fLit || b.fLit,
+   a.fWchar || b.fWchar⟩
+
+def hex64 (w : W) : String :=
+  String.ofList ((List.range 16).reverse.map (fun i => hexDigit ((w.toNat >>> (4 * i)) % 16)))
+
+def showRes : Res → String
+  | .val v => "v" ++ (if v.uns then "u" else "s") ++ hex64 v.bits
+  | .divZero => "divzero"
+  | .undef => "undef"
+
+def exprOfToks (toks : List Tok) : Option Expr :=
+  match toETokens toks with
+  | some ets => parseExpr ets
+  | none => none
+
+def popcount (n : Nat) : Nat := (List.range 6).foldl (fun a i => a + (n >>> i) % 2) 0
+
+def masksByWeight : List Nat :=
+  (List.range 7).flatMap (fun w => (List.range 64).filter (fun m => popcount m == w))
+
+/-- smallest set of additional repairs under which the modelled code agrees with C11 -/
+def classify (e : Expr) : Option Nat :=
+  let want := c11Eval e
+  masksByWeight.find? (fun m => c2mEvalG (orFixes appliedFixes (maskToFixes m)) e == want)
+
+partial def ppLoop (h : IO.FS.Stream) (ev : Expr → Res) (cur : List Line) : IO Unit := do
+  let line ← h.getLine
+  if line.isEmpty then return ()
+  let fs := (line.trimAscii.toString.splitOn " ").filter (· != "")
+  match fs with
+  | ["CASE", id] =>
+    IO.println s!"CASE {id}"
+    ppLoop h ev []
+  | ["END"] =>
+    let (out, err) := runUnit ev cur.reverse
+    for t in out do
+      IO.println s!"T {tohex t.sp}"
+    IO.println s!"ERR {if err then 1 else 0}"
+    IO.println "END"
+    ppLoop h ev []
+  | _ =>
+    match parseLine fs with
+    | some l => ppLoop h ev (l :: cur)
+    | none =>
+      IO.println s!"BADLINE {line.trimAscii.toString}"
+      ppLoop h ev cur
+
+partial def exprLoop (h : IO.FS.Stream) (f : Expr → String) : IO Unit := do
+  let line ← h.getLine
+  if line.isEmpty then return ()
+  let fs := (line.trimAscii.toString.splitOn " ").filter (· != "")
+  match exprOfToks (parseToks fs) with
+  | some e => IO.println (f e)
+  | none => IO.println "parseerr"
+  exprLoop h f
+
+def main (args : List String) : IO Unit := do
+  let h ← IO.getStdin
+  match args with
+  | ["pp", "c11"] => ppLoop h c11Eval []
+  | ["pp", "c2m"] => ppLoop h c2mEval []
+  | ["pp", "c2m", m] => ppLoop h (c2mEvalG (maskToFixes m.toNat!)) []
+  | ["expr"] =>
+    exprLoop h (fun e =>
+      let cls := match classify e with
+        | some m => toString m
+        | none => "-"
+      s!"{showRes (c11Eval e)} {showRes (c2mEval e)} {cls}")
+  | ["exprmask", m] => exprLoop h (fun e => showRes (c2mEvalG (maskToFixes m.toNat!) e))
+  | ["applied"] => IO.println (fixesToMask appliedFixes)
+  | _ => IO.eprintln "usage: mirdrv_c09 pp c11|c2m [mask] | expr | exprmask <mask> | applied"
